@@ -383,4 +383,152 @@ theorem score_only_not_antisymmetric :
 example : LinOrd (symLe (N := Nat) (F := Nat) (fun a b => decide (a ≤ b)) (fun a b => decide (a ≤ b))) :=
   symLe_linOrd _ _ natLe_linOrd natLe_linOrd
 
+
+/-! ### which project answers for a file that belongs to several (findMaxSecondProject) -/
+
+/-- the condition under which the visited project replaces the best one so far, as it stands in /repo now: more files, or
+    as many files and a smaller entry-file name -/
+theorem max_project_shape :
+    Gen.maxProjectCond =
+      "ok && (len(tmpSecond.AllFiles) > maxFileNum || (len(tmpSecond.AllFiles) == maxFileNum && secondProject != nil && tmpSecond.EntryFile < secondProject.EntryFile))" := by
+  rfl
+#print axioms max_project_shape
+
+/-- findMaxSecondProject: one pass over the candidates keeping the best one so far -/
+def pickBest {α : Type} (le : α → α → Bool) (l : List α) (init : Option α) : Option α :=
+  l.foldl (fun b x => match b with
+    | none => some x
+    | some y => if le y x then some y else some x) init
+
+theorem pickBest_spec {α : Type} (le : α → α → Bool)
+    (htot : ∀ a b, (le a b || le b a) = true) (htrans : ∀ a b c, le a b = true → le b c = true → le a c = true)
+    (l : List α) (y : α) :
+    ∃ m, pickBest le l (some y) = some m ∧ (m = y ∨ m ∈ l) ∧ le m y = true ∧ ∀ x ∈ l, le m x = true := by
+  induction l generalizing y with
+  | nil =>
+    refine ⟨y, rfl, Or.inl rfl, ?_, fun _ h => by cases h⟩
+    have := htot y y; simpa using this
+  | cons a r ih =>
+    unfold pickBest
+    simp only [List.foldl]
+    by_cases h : le y a = true
+    · simp only [h, if_true]
+      obtain ⟨m, h1, h2, h3, h4⟩ := ih y
+      refine ⟨m, h1, ?_, h3, ?_⟩
+      · cases h2 with
+        | inl e => exact Or.inl e
+        | inr e => exact Or.inr (List.mem_cons_of_mem _ e)
+      · intro x hx
+        cases List.mem_cons.mp hx with
+        | inl e => rw [e]; exact htrans m y a h3 h
+        | inr e => exact h4 x e
+    · have h' : le y a = false := by simpa using h
+      simp only [h', Bool.false_eq_true, if_false]
+      obtain ⟨m, h1, h2, h3, h4⟩ := ih a
+      have hay : le a y = true := by
+        have := htot y a; simp [h'] at this; exact this
+      refine ⟨m, h1, ?_, htrans m a y h3 hay, ?_⟩
+      · cases h2 with
+        | inl e => exact Or.inr (by rw [e]; exact List.mem_cons_self)
+        | inr e => exact Or.inr (List.mem_cons_of_mem _ e)
+      · intro x hx
+        cases List.mem_cons.mp hx with
+        | inl e => rw [e]; exact h3
+        | inr e => exact h4 x e
+
+/-- with a linear order (ties broken, as since the repair, by the entry-file name) the project picked does not depend on the
+    order in which the map of projects is walked -/
+theorem pickBest_order_independent {α : Type} (le : α → α → Bool)
+    (htot : ∀ a b, (le a b || le b a) = true) (htrans : ∀ a b c, le a b = true → le b c = true → le a c = true)
+    (hanti : ∀ a b, le a b = true → le b a = true → a = b) (l1 l2 : List α) (hp : l1.Perm l2) :
+    pickBest le l1 none = pickBest le l2 none := by
+  cases l1 with
+  | nil => have : l2 = [] := List.Perm.nil_eq hp |>.symm ▸ rfl; rw [this]
+  | cons a r =>
+    cases l2 with
+    | nil => exact absurd (List.Perm.eq_nil hp) (by simp)
+    | cons b s =>
+      have e1 : pickBest le (a :: r) none = pickBest le r (some a) := rfl
+      have e2 : pickBest le (b :: s) none = pickBest le s (some b) := rfl
+      rw [e1, e2]
+      obtain ⟨m, h1, h2, h3, h4⟩ := pickBest_spec le htot htrans r a
+      obtain ⟨n, g1, g2, g3, g4⟩ := pickBest_spec le htot htrans s b
+      rw [h1, g1]
+      have hm : m ∈ a :: r := by
+        cases h2 with
+        | inl e => rw [e]; exact List.mem_cons_self
+        | inr e => exact List.mem_cons_of_mem _ e
+      have hn : n ∈ b :: s := by
+        cases g2 with
+        | inl e => rw [e]; exact List.mem_cons_self
+        | inr e => exact List.mem_cons_of_mem _ e
+      have hmall : ∀ x ∈ a :: r, le m x = true := by
+        intro x hx
+        cases List.mem_cons.mp hx with
+        | inl e => rw [e]; exact h3
+        | inr e => exact h4 x e
+      have hnall : ∀ x ∈ b :: s, le n x = true := by
+        intro x hx
+        cases List.mem_cons.mp hx with
+        | inl e => rw [e]; exact g3
+        | inr e => exact g4 x e
+      have hmn : le m n = true := hmall n (hp.symm.subset hn)
+      have hnm : le n m = true := hnall m (hp.subset hm)
+      rw [hanti m n hmn hnm]
+#print axioms pickBest_order_independent
+
+/-- "more files first, then the smaller entry name": a project is (number of files, entry name) -/
+def projLe {N : Type} [DecidableEq N] (nle : N → N → Bool) (a b : Nat × N) : Bool :=
+  if a.1 ≠ b.1 then decide (a.1 > b.1) else nle a.2 b.2
+
+set_option linter.unusedSimpArgs false in
+theorem projLe_linOrd {N : Type} [DecidableEq N] (nle : N → N → Bool) (hn : LinOrd nle) : LinOrd (projLe nle) := by
+  refine ⟨?_, ?_, ?_⟩
+  · intro a b
+    unfold projLe
+    by_cases h1 : a.1 = b.1
+    · simp [h1]; simpa [Bool.or_eq_true] using hn.total a.2 b.2
+    · have h1' : b.1 ≠ a.1 := fun h => h1 h.symm
+      simp [h1, h1']; omega
+  · intro a b c
+    unfold projLe
+    by_cases h1 : a.1 = b.1 <;> by_cases g1 : b.1 = c.1
+    · have e1 : a.1 = c.1 := h1.trans g1
+      simp only [h1, g1, e1, ne_eq, not_true_eq_false, if_false]
+      exact hn.trans _ _ _
+    · have e1 : a.1 ≠ c.1 := fun h => g1 (h1 ▸ h)
+      simp only [h1, g1, e1, ne_eq, not_true_eq_false, not_false_eq_true, if_true, if_false, decide_eq_true_eq]
+      intro _ y; omega
+    · have e1 : a.1 ≠ c.1 := fun h => h1 (g1 ▸ h)
+      simp only [h1, g1, e1, ne_eq, not_true_eq_false, not_false_eq_true, if_true, if_false, decide_eq_true_eq]
+      intro x _; omega
+    · simp only [h1, g1, ne_eq, not_false_eq_true, if_true, decide_eq_true_eq]
+      intro x y
+      have : a.1 ≠ c.1 := by omega
+      simp [this]; omega
+  · intro a b
+    unfold projLe
+    by_cases h1 : a.1 = b.1
+    · simp only [h1, ne_eq, not_true_eq_false, if_false]
+      intro x y
+      have := hn.anti _ _ x y
+      exact Prod.ext h1 this
+    · have h1' : b.1 ≠ a.1 := fun h => h1 h.symm
+      simp [h1, h1']; omega
+#print axioms projLe_linOrd
+
+/-- C09 for `findMaxSecondProject` (repaired): the project that answers for a file does not depend on the order in which
+    the map of projects is walked -/
+theorem max_project_deterministic {N : Type} [DecidableEq N] (nle : N → N → Bool) (hn : LinOrd nle)
+    (l1 l2 : List (Nat × N)) (hp : l1.Perm l2) : pickBest (projLe nle) l1 none = pickBest (projLe nle) l2 none :=
+  let h := projLe_linOrd nle hn
+  pickBest_order_independent _ h.total h.trans h.anti l1 l2 hp
+#print axioms max_project_deterministic
+
+/-- as it was (more files only, strict): two equally large projects — whichever is visited first stays -/
+theorem max_project_tie_before :
+    let le := fun (a b : Nat × Nat) => decide (a.1 ≥ b.1)
+    pickBest le [(3, 1), (3, 2)] none = some (3, 1) ∧ pickBest le [(3, 2), (3, 1)] none = some (3, 2) := by decide
+#print axioms max_project_tie_before
+
 end LuaHelper.C09
